@@ -9,6 +9,7 @@ import PotasscoVerif.Drv.Smodels
 import PotasscoVerif.Drv.Signals
 import PotasscoVerif.Drv.StringBuilder
 import PotasscoVerif.Drv.StringConvert
+import PotasscoVerif.Drv.OptIndex
 open PotasscoVerif.Drv
 
 def dispatch (line : String) : String :=
@@ -24,6 +25,7 @@ def dispatch (line : String) : String :=
   | "sg" :: args => runSG args
   | "sb" :: args => runSB args
   | "sc" :: args => runSC args
+  | "oi" :: args => runOI args
   | _ => "bad-component"
 
 partial def loop (h : IO.FS.Stream) (out : IO.FS.Stream) : IO Unit := do
